@@ -442,7 +442,12 @@ def run(tier):
         for t in NEED_TAGS:
             take([g for g in good if any(t in c["tags"] for c in g["calls"])], 40)
         take([g for g in good if (g["cfg"]["dn"] in FILE_DOCS and any(c["call"] == "Edit" for c in g["calls"]))
-              or any(c["call"] == "Rekey" for c in g["calls"]) or not (g["cfg"]["urep"] and g["cfg"]["orep"])], 900)
+              or any(c["call"] == "Rekey" for c in g["calls"]) or not (g["cfg"]["urep"] and g["cfg"]["orep"])], 700)
+        # ... and Identity filters under custom names, Identity overrides on streams with strings in their dictionaries
+        take([g for g in good if any(e[1] == "Identity" and e[0] != "Identity" for e in g["cfg"]["cf"])
+              and any(c["call"] == "Decrypt" and "ok-restored" in c["tags"] for c in g["calls"])], 250)
+        take([g for g in good if g["cfg"]["dn"] in ("D2", "D3", "D8") and g["cfg"]["V"] >= 4 and g["cfg"]["strf"] != "Identity"
+              and any(c["call"] == "Encrypt" and c["res"] == "Ok" for c in g["calls"])], 250)
         take(bad, 1200)
         take(good, 2500 - len(picked))
         cases = picked
